@@ -6,23 +6,7 @@ import (
 	metav1 "k8s.io/apimachinery/pkg/apis/meta/v1"
 
 	"github.com/np-guard/netpol-analyzer/pkg/manifests/parser"
-	"github.com/np-guard/netpol-analyzer/pkg/netpol/internal/common"
 )
-
-func zzDenCS(c *common.ConnectionSet, proto corev1.Protocol, x int64) bool {
-	if c.AllowAll {
-		return true
-	}
-	p, ok := c.AllowedProtocols[proto]
-	if !ok {
-		return false
-	}
-	r := false
-	for _, iv := range p.Ports.Intervals() {
-		r = vf_Or(r, vf_And(iv.Start() <= x, x <= iv.End()))
-	}
-	return r
-}
 
 func ZZ_Smoke_Eval1() {
 	p := vf_Int32N("p", 17)
